@@ -94,7 +94,12 @@ def build(case):
     if fmt == "cm3":
         two, pat = case["two"], case["pat"]
         pix = M.rand_pixels(rng, 320, 384 if two else 192, kind)
-        return fmt, M.enc_cm3(pix, pal, two, pat, rng, "raw"), [], M.expected_rgb(pix, pal), "cm3 raw p%d m%d" % (2 if two else 1, pat)
+        M.CM3_EXTRA[0] = case.get("cm3x")
+        try:
+            data = M.enc_cm3(pix, pal, two, pat, rng, "raw")
+        finally:
+            M.CM3_EXTRA[0] = None
+        return fmt, data, [], M.expected_rgb(pix, pal), "cm3 raw p%d m%d%s" % (2 if two else 1, pat, " x%s" % (case["cm3x"][3:],) if case.get("cm3x") else "")
     if fmt == "vef":
         vt = case["vt"]
         w, h, ncol, rec, ppb = M.VEF_TYPES[vt]
@@ -178,6 +183,10 @@ def cases(tier, seed):
     for vt in (0, 1, 3):
         for kind in ("random", "alt"):
             yield c(fmt="vef", vt=vt, kind=kind, highbits=True)
+    # CM3 animation / cycle fields set (rates, a cycle table, the two flag bytes with and without bit 7)
+    for k_, x_ in enumerate(((3, 5, [1, 2, 3, 4, 5, 6, 7, 8], 0x80, 0x80), (0, 9, [63, 0, 9, 18, 27, 36, 45, 54], 0, 0xFF), (7, 0, [5] * 8, 0xFF, 0),
+                             (1, 1, [0] * 8, 0x7F, 0x01), (255, 255, [255] * 8, 0x80, 0x81))):
+        yield c(fmt="cm3", two=(k_ % 2 == 1), pat=(k_ % 3 != 0), kind="random", cm3x=list(x_))
     for fp in ("all", "first4", "zero", "two", "white"):
         for vt in (0, 1, 3):
             yield c(fmt="vef", vt=vt, kind="random", flatpal=fp)
